@@ -21,6 +21,17 @@ pub struct SSlot<K> {
     pub plan: Plan,
 }
 
+/// `Extend<&T>` needs `Copy` elements: only the plain key flavour has it.
+fn extend_by_ref<K: KeyT>(set: &mut Set<K>, items: &Vec<K>) -> bool {
+    use crate::elem::PKey;
+    use std::any::Any;
+    let (Some(s), Some(it)) = ((set as &mut dyn Any).downcast_mut::<Set<PKey>>(), (items as &dyn Any).downcast_ref::<Vec<PKey>>()) else {
+        return false;
+    };
+    s.extend(it.iter());
+    true
+}
+
 fn keep(id: u32, salt: u64, pct: u64) -> bool {
     splitmix64(id as u64 ^ salt.wrapping_mul(0x9E37_79B9)) % 100 < pct
 }
@@ -276,7 +287,10 @@ where
                     expect.push((k, g));
                 }
                 let s = &mut self.slots[cur];
-                s.set.extend(items);
+                // plain (Copy) elements: odd start keys go through `Extend<&T>`
+                if !(a[0] & 1 == 1 && extend_by_ref(&mut s.set, &items)) {
+                    s.set.extend(items);
+                }
                 for (k, g) in expect {
                     if Self::mpos(&s.model, k).is_none() {
                         s.model.push((k, g));
@@ -381,7 +395,8 @@ where
                 }
                 if a[0] % 2 == 0 {
                     let cont = if a[2] % 6 == 5 { 0 } else { a[2] % 6 };
-                    let (got, c) = drive_iter(s.set.iter(), total, prefix, cont, Some(&|i: &hb::hash_set::Iter<'_, K>| i.clone()), "set iter", |k| {
+                    let it = if a[1] & 1 == 1 { (&s.set).into_iter() } else { s.set.iter() };
+                    let (got, c) = drive_iter(it, total, prefix, cont, Some(&|i: &hb::hash_set::Iter<'_, K>| i.clone()), "set iter", |k| {
                         k.check("set iter element");
                         (k.id() as u64, k.gen() as u64)
                     })?;
@@ -494,7 +509,18 @@ where
                 let s = &mut self.slots[cur];
                 world::with(|w| w.default_plan = s.plan);
                 let old = std::mem::replace(&mut s.set, Set::with_hasher_in(PlanBuildHasher::new(s.plan), CheckAlloc));
-                s.set = old.into_iter().collect();
+                if s.model.len() % 2 == 0 {
+                    s.set = old.into_iter().collect();
+                } else {
+                    // through a HashMap<T, ()> and `From<HashMap<T, (), S, A>> for HashSet`
+                    let mut m: hb::HashMap<K, (), PlanBuildHasher, CheckAlloc> = hb::HashMap::with_hasher_in(PlanBuildHasher::new(s.plan), CheckAlloc);
+                    for k in old {
+                        m.insert(k, ());
+                    }
+                    s.set = Set::from(m);
+                }
+                let sample: Vec<u32> = s.model.iter().take(2).map(|e| e.0).collect();
+                Self::from_array_check(&sample)?;
             }
             _ => {}
         }
@@ -530,6 +556,27 @@ where
             ops::MIRROR => self.pristine[other] = false,
             _ => self.pristine[cur] = false,
         }
+    }
+
+    /// `From<[T; N]>` for N = 0, 1, 3 (with a repeated element: the first one stays).
+    fn from_array_check(sample: &[u32]) -> Result<(), Bad> {
+        type DSet = hb::HashSet<ArrKey, hb::DefaultHashBuilder, CheckAlloc>;
+        let e: DSet = DSet::from([]);
+        if e.len() != 0 || e.iter().next().is_some() {
+            bad!("C07", "from-array", "HashSet::from([]) is not empty");
+        }
+        if e.allocation_size() != 0 {
+            bad!("C03", "unallocated-collection-owns-block", "HashSet::from([]) owns a block");
+        }
+        if let Some(&id) = sample.first() {
+            let id2 = sample.get(1).copied().unwrap_or(id.wrapping_add(1_000_000));
+            let three: DSet = DSet::from([ArrKey { id, tag: 1 }, ArrKey { id: id2, tag: 2 }, ArrKey { id, tag: 3 }]);
+            let g0 = three.get(&ArrKey { id, tag: 0 }).map(|k| k.tag);
+            if three.len() != 2 || g0 != Some(1) || !three.contains(&ArrKey { id: id2, tag: 0 }) {
+                bad!("C07", "from-array", "HashSet::from of three elements with a repeated one: len {} stored tag {:?}", three.len(), g0);
+            }
+        }
+        Ok(())
     }
 
     fn lookup(&self, si: usize, k: u32) -> Result<(), Bad> {
